@@ -560,6 +560,11 @@ def evaluate_payload_template(input, context, template):
             # The last argument controls the seed value and is optional.
             if len(args) == 3:
                 # https://docs.python.org/3/library/random.html#random.seed
+                # which only supports None, int, float, str, bytes, and bytearray
+                if isinstance(args[2], (dict, list)):
+                    raise IntrinsicFailure(
+                        "States.MathRandom failed, the seed value must be a number."
+                    )
                 random.seed(args[2])
             if not isinstance(args[0], int) or not isinstance(args[1], int):
                 raise IntrinsicFailure(
@@ -568,6 +573,10 @@ def evaluate_payload_template(input, context, template):
 
             # States.MathRandom has inclusive start and exclusive end number
             # https://docs.aws.amazon.com/step-functions/latest/dg/amazon-states-language-intrinsic-functions.html#asl-intrsc-func-math-operation
+            if args[0] >= args[1]:  # randrange would raise ValueError
+                raise IntrinsicFailure(
+                    "States.MathRandom failed, the end number must be greater than the start number."
+                )
             return random.randrange(args[0], args[1])
 
         def asl_intrinsic_MathAdd(args):
